@@ -188,4 +188,41 @@ def st_case(ctx: Ctx):
     )
 
 
-PARTS = [Part("trees", check_tree, strategy=st_case, quick=1200, thorough=60000)]
+def enum_deep(ctx: Ctx):
+    for shape in ("one", "items", "child", "mixed"):
+        for factor in ((2, 4) if ctx.thorough else (2,)):
+            yield {"shape": shape, "factor": factor}
+
+
+def check_deep(data: dict, lab: Labels) -> None:
+    """a chain far deeper than the recursion limit: search and match still agree with the chain"""
+    from pyoak.match.xpath import ASTXpath
+
+    from pbt import origins as og
+
+    nodes = T.build_chain(T.deep_depth(data["factor"]), data["shape"], og.make_sources())
+    root, leaf = nodes[0], nodes[-1]
+    lab.tag("deep-chain")
+    lab.sample_class = "deep"
+    x = ASTXpath("//LeafA")
+    found = list(x.findall(root))
+    require(len(found) == 1 and found[0] is leaf, "xpath-vs-documented-semantics", "//LeafA on a deep chain")
+    require(x.match(root, leaf) is True and x.match(root, nodes[1]) is False, "findall-vs-match", "//LeafA on a deep chain")
+    require(root.find("//LeafA") is leaf, "find-vs-findall", "deep")
+    top, second = type(root).__name__, type(nodes[1]).__name__
+    pairs = [c for p, c in zip(nodes, nodes[1:]) if type(p).__name__ == top and type(c).__name__ == second]
+    x2 = ASTXpath(f"//{top}/{second}")
+    got = list(x2.findall(root))
+    require(len(got) == len(pairs) and {id(n) for n in got} == {id(n) for n in pairs}, "xpath-vs-documented-semantics",
+            f"//{top}/{second}: {len(got)} found, {len(pairs)} expected")
+    for k in (1, len(nodes) // 2, len(nodes) - 2):
+        exp = any(nodes[k] is c for c in pairs)
+        require(x2.match(root, nodes[k]) is exp, "findall-vs-match", f"//{top}/{second} at level {k}")
+    x3 = ASTXpath(f"/{top}//LeafA")
+    require([id(n) for n in x3.findall(root)] == [id(leaf)], "xpath-vs-documented-semantics", "absolute // on a deep chain")
+    lab.nontrivial = True
+
+
+PARTS = [Part("trees", check_tree, strategy=st_case, quick=1200, thorough=60000),
+         Part("deep", check_deep, enumerate=enum_deep,
+              exhaustive_note="4 chain shapes x depth 2x (thorough: and 4x) the recursion limit")]
